@@ -51,10 +51,12 @@ def run_checks(props, tier="quick"):
     return res
 
 def confirm(pid, which, checks=None):
-    src = "/tmp/seed/%s/out" % pid
-    name = "%s-%s" % (pid, which)
+    src = "%s/%s/out" % (os.environ.get("SEED_SRC", "/tmp/seed"), pid)
+    # round 2 deliverables are also called a/b: SEED_RENAME=a:c,b:d stores them as <ID>-c / <ID>-d
+    ren = dict(x.split(":") for x in os.environ.get("SEED_RENAME", "").split(",") if ":" in x)
+    name = "%s-%s" % (pid, ren.get(which, which))
     head = ensure()
-    meta = {"name": name, "breaks_property": pid, "source": "independent sub-agent given only the property text and a scratch worktree", "repo_head": head, "confirmation": {}}
+    meta = {"name": name, "breaks_property": pid, "round": 2 if ren else 1, "source": "independent sub-agent given only the property text and a scratch worktree" + (" (second round: also told which changes had been tried before)" if ren else ""), "repo_head": head, "confirmation": {}}
     shutil.copy(os.path.join(src, "%s_demo.rs" % which), os.path.join(SCRATCH, "tests", "seed_demo.rs"))
     ok_clean, out_clean = demo()
     meta["confirmation"]["demo_passes_on_unmodified_tree"] = ok_clean
